@@ -6,6 +6,7 @@ Oracle: (a) the names pass accepts iff no declaration's name is lexically visibl
 computed in Python from the skeleton: globals, parameters, enclosing blocks / loop headers / ifs, earlier
 declarations of the same scope); (b) the whole AST pipeline of the compiler accepts iff, in addition, every use
 names a lexically visible variable - so a variable of a block or loop header is not visible after it."""
+import itertools
 import common, implrun
 
 RULE = ("seeded random block structures (depth <=4, <=7 statements per block) over declarations, uses, blocks, if/else (braced and un-braced "
@@ -208,6 +209,48 @@ def explore(run, widen=1):
                      key="names:" + names)
         if full != want_full:
             run.fail("frontend", inp, "the front end %ss\n%s; lexical rule: %s" % (full, src, want_full), key="frontend:" + full)
+
+
+    binding_leg(run)
+
+
+def binding_leg(run):
+    """Run-time consequence of the statement: a use reads and writes the ONE declaration lexically visible there.  Programs whose
+    sibling scopes re-use a name (allowed) must behave exactly like their alpha-renamed versions (every declaration its own name)."""
+    decls = {"int": ("int %s;", "%s = a;", "%s"), "float": ("float %s;", "%s = 2.5;", "%s"),
+             "int[3]": ("int[3] %s;", "%s[2] = a;", "%s[2]"), "int[2][2]": ("int[2][2] %s;", "%s[1][0] = a;", "%s[1][0]"),
+             "float[2]": ("float[2] %s;", "%s[1] = 1.5;", "%s[1]")}
+    wraps = [("{ %s }", "{ %s }"), ("if (a > 0) { %s }", "if (a > 0) { %s }"), ("if (a > 0) { %s } else { }", "if (a < 0) { } else { %s }"),
+             ("for (int k = 0; k < 2; ++k) { %s }", "{ %s }"), ("{ %s }", "for (int k = 0; k < 2; ++k) { %s }"),
+             ("{ { %s } }", "{ %s }"), ("int q = 0; while (q < 1) { q = q + 1; %s }", "{ %s }"), ("do { %s } while (0 > 1)", "{ %s }")]
+    progs = []
+    for t1, t2 in itertools.product(decls, repeat=2):
+        d1, w1, r1 = decls[t1]; d2, w2, r2 = decls[t2]
+        for wa, wb in wraps:
+            def body(n1, n2):
+                first = wa % (d1 % n1 + " " + w1 % n1 + " r = r + " + r1 % n1 + ";")
+                second = wb % (d2 % n2 + " r = r + " + r2 % n2 + " * 1000; " + w2 % n2)
+                return "export function f(int a) -> float { float r = 0.0; %s %s return r; }" % (first, second)
+            progs.append((body("t", "t"), body("t1", "t2")))
+    # a for-header variable, then the same name declared after the loop; a name of an enclosing block's sibling
+    progs.append(("export function f(int a) -> float { float r = 0.0; for (int t = 0; t < 2; ++t) { r = r + t; } int t; r = r + t * 1000; t = a; return r; }",
+                  "export function f(int a) -> float { float r = 0.0; for (int t1 = 0; t1 < 2; ++t1) { r = r + t1; } int t2; r = r + t2 * 1000; t2 = a; return r; }"))
+    if run.tier != "thorough": progs = run.rng.sample(progs[:-1], 70) + progs[-1:]
+    for reuse, renamed in progs:
+        outs = []
+        for src in (reuse, renamed):
+            c = implrun.compile_src(src)
+            if c[0] != "ok": outs.append(("reject", str(c[1][:2]))); continue
+            res = []
+            for a in (41, 0, -3):
+                vm = implrun.new_vm(implrun.link([c[1].IRModule]))
+                res.append(implrun.invoke(vm, "f", dict(a=a), limit=3))
+            outs.append(("ok", res))
+        run.case(("binding", reuse), nontrivial=True); run.count("binding:" + outs[0][0])
+        if outs[0] != outs[1]:
+            run.fail("binding", dict(source=reuse, renamed=renamed, got=str(outs[0])[:200], expected=str(outs[1])[:200]),
+                     "sibling scopes re-use a name:\n%s\nbehaves like %s, its alpha-renamed version\n%s\nlike %s" % (reuse, str(outs[0])[:120], renamed, str(outs[1])[:120]),
+                     key="binding:" + outs[0][0])
 
 
 def search(run):
